@@ -548,14 +548,14 @@ func TestEdges(t *testing.T) {
 }
 
 func TestConstructed(t *testing.T) {
-	rec.Check(t, rec.Scale(15000, 100000), func(t *rapid.T) {
+	rec.Check(t, rec.Scale(10000, 100000), func(t *rapid.T) {
 		kind, v, src := genCase(t)
 		run(t, "ctor", kind, v, src)
 	})
 }
 
 func TestFromBytes(t *testing.T) {
-	rec.Check(t, rec.Scale(8000, 50000), func(t *rapid.T) {
+	rec.Check(t, rec.Scale(6000, 50000), func(t *rapid.T) {
 		data := rapid.SliceOfN(rapid.Byte(), 1, 1100).Draw(t, "data")
 		kind, v, src := fromBytes(data)
 		run(t, "bytes", kind, v, src)
@@ -563,7 +563,7 @@ func TestFromBytes(t *testing.T) {
 }
 
 func TestGoTypesConstants(t *testing.T) {
-	rec.Check(t, rec.Scale(12000, 60000), func(t *rapid.T) {
+	rec.Check(t, rec.Scale(9000, 60000), func(t *rapid.T) {
 		cat := rapid.SampledFrom([]byte("iirfffcccbs")).Draw(t, "cat")
 		expr := genExpr(t, cat, rapid.IntRange(0, 4).Draw(t, "depth"))
 		src := "package p\n\nconst C = " + expr + "\n"
